@@ -58,6 +58,8 @@ def fifo_configs(thorough):
     add("BitVector[2]", (2,), QUICK_DELAYS)
     add("BitVector[2]", (3,), [(1, 1)])
     add("Bit", (2, 3), ONE_SIDED)
+    # delay lines of >= 2 stages (delay >= 3) in each direction, and through the `delay=` shorthand
+    add("Bit", (2, 3), [(3, 0), (0, 3), (3, 3), (4, 4)], (2,))
     add("Bit", (2, 3), [(0, 0)] + QUICK_DELAYS + ONE_SIDED, ("2o",))
     add("Bit", (2, 3), [(0, 0), (1, 1)], ("2b",))
     # aggregate element types (serialised records / arrays), zero delay, two contexts; N bounded by the width
